@@ -106,6 +106,13 @@ def run_optable(prop):
             tobls, tfns = tobls + sobls + fobls, sorted(set(tfns) | set(sfns) | set(ffns))
             ev.cov["bounds"].append("Op::type_info fallibility lemma (all opcodes, no bound): the fallibility of every TypeDef is tracked as a boolean term; kinds uninterpreted")
             ev.cov["bounds"].append("Op::type_info state-flow lemma (all opcodes, no bound): operand constants are read in the state in which the operand is evaluated")
+        if prop == "C01":
+            import falliblelemmas
+            fobls, ffns = falliblelemmas.obligations(S)
+            fobls = [o for o in fobls if "C01" in o.props]
+            for o in fobls:
+                battery_of[o.role] = falliblelemmas.battery
+            tobls, tfns = tobls + fobls, sorted(set(tfns) | set(ffns))
         ev.cov["functions_encoded"] += [f"{n} [mir sha256:{h}]" for n, h in tfns]
         refuted = {}
         for o in tobls:
